@@ -150,6 +150,34 @@ class SimConnection(sqlite3.Connection):
     def cursor(self, factory=None):
         return super().cursor(SimCursor)
 
+    # Connection.execute / executemany / executescript create their cursor in C and never pass through cursor() or
+    # Cursor.execute: they are statements like any other and are intercepted here.
+    def execute(self, sql, *args, **kwargs):
+        h = head_of(sql)
+        _gate("exec", h, "before")
+        cur = super().execute(sql, *args, **kwargs)
+        if _will_fire_after() and STATE["plan"]["action"].startswith("raise:"):
+            try:
+                cur.fetchall()
+            except sqlite3.Error:
+                pass
+        _gate("exec", h, "after")
+        return cur
+
+    def executemany(self, sql, *args, **kwargs):
+        h = head_of(sql)
+        _gate("exec", h, "before")
+        cur = super().executemany(sql, *args, **kwargs)
+        _gate("exec", h, "after")
+        return cur
+
+    def executescript(self, sql, *args, **kwargs):
+        h = "SCRIPT " + head_of(sql)
+        _gate("exec", h, "before")
+        cur = super().executescript(sql, *args, **kwargs)
+        _gate("exec", h, "after")
+        return cur
+
     def commit(self):
         _gate("commit", "", "before")
         r = super().commit()
